@@ -106,7 +106,7 @@ pub const ALL_FNS: &[&str] = &[
     "parse_tls_extension_encrypted_server_name", "parse_tls_extension_unknown", "parse_tls_client_hello_extension",
     "parse_tls_server_hello_extension", "parse_tls_extension", "parse_tls_client_hello_extensions",
     "parse_tls_server_hello_extensions", "parse_tls_extensions",
-    "parse_dh_params", "parse_named_groups", "parse_ec_parameters", "parse_ecdh_params", "ECPoint::parse",
+    "parse_dh_params", "parse_named_groups", "parse_ec_parameters", "ECParametersContent::parse", "parse_ecdh_params", "ECPoint::parse",
     "parse_digitally_signed_old", "parse_digitally_signed", "parse_content_and_signature",
     "parse_ct_signed_certificate_timestamp", "parse_ct_signed_certificate_timestamp_list",
     "parse_dtls_record_header", "parse_dtls_message_handshake", "parse_dtls_message_changecipherspec",
@@ -205,6 +205,7 @@ pub fn call(name: &str, a: &Args, i: &[u8]) -> Option<Out> {
         "parse_dh_params" => c!(i, parse_dh_params, pj::dh),
         "parse_named_groups" => c!(i, parse_named_groups, |v: &Vec<NamedGroup>| Value::Array(v.iter().map(|g| json!(g.0)).collect())),
         "parse_ec_parameters" => c!(i, parse_ec_parameters, pj::ecparams),
+        "ECParametersContent::parse" => { let ct = a.ct; c!(i, move |i| ECParametersContent::parse(i, ECCurveType(ct)), pj::eccontent) }
         "parse_ecdh_params" => c!(i, parse_ecdh_params, pj::ecdh),
         "ECPoint::parse" => c!(i, ECPoint::parse, pj::ecpoint),
         "parse_digitally_signed_old" => c!(i, parse_digitally_signed_old, pj::signed),
